@@ -402,3 +402,20 @@ package app
 //@   ensures ret0.Code == 0 ==> (err == nil && bytes_str(content(msg.ChainId)) == app.ChainID && !old(nonceUsed(app.NonceTracker, signer, msg.RandomNonce)))
 //@   ensures ret0.Code == 0 ==> (old(len(app.CheckTxState.Members)) == 0 || old(pwb(app.CheckTxState.Members, signer)))
 //@ pred pwb(m, k) := has(m, k) && m[k]
+//@
+//@ // ---- C10: the mempool gate. Commit resets the per-block counters and nonces but must keep the member set
+//@ // (CheckTx refuses non-members from it); the member set itself is only rewritten from consensus state.
+//@ func (*CheckTxState).Reset
+//@   requires s != nil
+//@   assigns self.TxCounts, self.NonceTracker
+//@   ensures s.TxCounts != nil && fresh(s.TxCounts) && ntInv(s.NonceTracker) && fresh(s.NonceTracker)
+//@   ensures forall a Arr :: !has(s.TxCounts, a)
+//@ // the state file is written by gob/os code outside the verifier's reach; it does not touch the mempool gate
+//@ func (*ShutterApp).maybePersistToDisk
+//@   trusted
+//@   assigns app.ShutterApp.LastSaved
+//@ func (*ShutterApp).Commit
+//@   requires app != nil && app.CheckTxState != nil
+//@   assigns app.ShutterApp.LastSaved, app.CheckTxState.TxCounts, app.CheckTxState.NonceTracker
+//@   ensures app.CheckTxState == old(app.CheckTxState) && app.CheckTxState.Members == old(app.CheckTxState.Members)
+//@   ensures forall a Arr :: (has(app.CheckTxState.Members, a) == old(has(app.CheckTxState.Members, a)) && app.CheckTxState.Members[a] == old(app.CheckTxState.Members[a]))
